@@ -67,10 +67,21 @@ OpInstances(n) ==
 \* modal shapes: the recorded expansion with ONE accessible world (0R1) on the branch
 ModalRule(n) == IF n.k # "s" \/ ~IsModalShape(ShapeOf(n.s)) THEN <<>> ELSE Lookup1("modal", ShapeOf(n.s), n.d, 1)
 SentNodes(ext) == SelectSeq(ext, LAMBDA x : x.k = "s")
-IsWitness(r) == \E j \in 1..Len(r.exts[1]) : r.exts[1][j].k = "a" /\ r.exts[1][j].w2 > 1
-\* witness: the sentence nodes placed at the new world; universal: the sentence node placed at world 1
-WitnessTemplate(r) == LET new == CHOOSE w \in {r.exts[1][j].w2 : j \in {j \in 1..Len(r.exts[1]) : r.exts[1][j].k = "a"}} : w > 1
-                      IN SelectSeq(SentNodes(r.exts[1]), LAMBDA x : x.w = new)
+\* A rule that TICKED its node is one-shot (witness / translation type): each recorded group is instantiated once; a
+\* group that holds an access node from world 0 to a world > 1 opens a NEW world and puts its sentence nodes of that
+\* template world there, nodes at template world 0 stay at the target's world (the K3WQ rules fork into a witness
+\* group and a translation group, the GO rules only translate).  A rule that did not tick is universal type.
+IsWitness(r) == r.ticked = 1
+NewWOf(ext) == {ext[j].w2 : j \in {j \in 1..Len(ext) : ext[j].k = "a" /\ ext[j].w1 = 0 /\ ext[j].w2 > 1}}
+OpensWorld(r) == \E g \in 1..Len(r.exts) : NewWOf(r.exts[g]) # {}
+WitnessGroups(r, ops, w2, w0) ==
+  [g \in 1..Len(r.exts) |->
+     LET ext == r.exts[g]
+         tw == IF NewWOf(ext) = {} THEN -7 ELSE CHOOSE w \in NewWOf(ext) : TRUE
+         rows == SentNodes(ext)
+     IN {SN(SubstAtoms(rows[j].s, ops), rows[j].d, IF rows[j].w = tw THEN w2 ELSE w0) : j \in {j \in 1..Len(rows) : rows[j].w \in {0, tw}}}
+        \cup (IF tw = -7 THEN {} ELSE {AN(w0, w2)})]
+\* universal: the sentence node placed at world 1
 UniversalTemplate(r) == SelectSeq(SentNodes(r.exts[1]), LAMBDA x : x.w = 1)
 Inst(tmpl, ops, w) == {SN(SubstAtoms(tmpl[j].s, ops), tmpl[j].d, w) : j \in 1..Len(tmpl)}
 
@@ -128,11 +139,11 @@ Apply(b, mv) ==
          LET inst == OpInstances(mv[2]) IN
          {[b EXCEPT !.nodes = b.nodes \cup inst[g], !.ticked = b.ticked \cup {mv[2]}, !.serialLast = FALSE] : g \in 1..Len(inst)}
     [] mv[1] = "wit" ->
-         IF Cardinality(WorldsOf(b.nodes)) > MaxW
+         IF OpensWorld(ModalRule(mv[2])[1]) /\ Cardinality(WorldsOf(b.nodes)) > MaxW
          THEN {[b EXCEPT !.quit = TRUE]}
-         ELSE LET n == mv[2]  w2 == NewWorld(b.nodes) IN
-              {[b EXCEPT !.nodes = b.nodes \cup {AN(n.w, w2)} \cup Inst(WitnessTemplate(ModalRule(n)[1]), Operands(n.s), w2),
-                         !.ticked = b.ticked \cup {n}, !.serialLast = FALSE]}
+         ELSE LET n == mv[2]  w2 == NewWorld(b.nodes)
+                  gs == WitnessGroups(ModalRule(n)[1], Operands(n.s), w2, n.w) IN
+              {[b EXCEPT !.nodes = b.nodes \cup gs[g], !.ticked = b.ticked \cup {n}, !.serialLast = FALSE] : g \in 1..Len(gs)}
     [] mv[1] = "uni" ->
          {[b EXCEPT !.nodes = b.nodes \cup Inst(UniversalTemplate(ModalRule(mv[2])[1]), Operands(mv[2].s), mv[3]), !.serialLast = FALSE]}
     [] mv[1] = "serial" -> {[b EXCEPT !.nodes = b.nodes \cup {AN(mv[2], NewWorld(b.nodes))}, !.serialLast = TRUE]}
